@@ -1837,3 +1837,47 @@ def rule_accforward(ctx) -> RuleResult:
                            f"{q} squares the data (itself or inside the external kernel) in the dtype of the input and applies `dtype` to the sum only: the squares of "
                            "narrow integers wrap, so the chunked var of int8 [100, -100, 50, 20] is -341.25 (eager 5418.75) and std is NaN")
     return res
+
+
+# ---------------------------------------------------------------------------------------------
+# R-NOVALID (C18, C01): positions computed from a per-group count of valid members are masked where that count is zero.
+# quantile_ turns the number of valid members of each group into positions (`q * (count - 1)` + the running offset of the group starts) and
+# gathers with them.  For a group with no valid member the positions fall into the neighbouring groups, so the function must overwrite those
+# groups afterwards, on a path that the NaN-skipping variant takes: a store `result[..., M] = nan` whose mask M is derived from a comparison
+# of the valid-count variable, not guarded by "not skipna".
+def rule_novalid(ctx) -> RuleResult:
+    res = RuleResult("R-NOVALID", "positions derived from per-group valid counts are masked for groups without a valid member", min_instances=1)
+    from ..astutil import guard_facts
+    from .codes import _local_closure
+    f = ctx.prog.funcs.get("aggregate_flox.quantile_")
+    if f is None:
+        raise AnalysisError("aggregate_flox.quantile_ is gone (anchor)")
+    # the valid-count variable: assigned from a reduceat / sum of a validity mask
+    counts = {a.targets[0].id for a in walk_own(f.node) if isinstance(a, ast.Assign) and len(a.targets) == 1 and isinstance(a.targets[0], ast.Name)
+              and any(isinstance(c, ast.Call) and norm(c.func).endswith("reduceat") for c in ast.walk(a.value))
+              and any("valid" in nm or "notnull" in nm for nm in names_in(a.value) | {norm(c.func) for c in ast.walk(a.value) if isinstance(c, ast.Call)})}
+    gathers = [c for c in calls_in(f.node) if norm(c.func) in ("np.take_along_axis", "np.take")]
+    if not counts or not gathers:
+        res.notes.append("quantile_ no longer derives gather positions from a per-group count of valid members: rule not applicable")
+        res.min_instances = 0
+        return res
+    pm = parents_map(f.node)
+    ok = []
+    for a in walk_own(f.node):
+        if not (isinstance(a, ast.Assign) and len(a.targets) == 1 and isinstance(a.targets[0], ast.Subscript) and norm(a.value) in ("np.nan", "nan", "float('nan')")):
+            continue
+        mask_names = names_in(a.targets[0].slice)
+        clo = _local_closure(f, a.targets[0].slice)
+        from_count_compare = any(isinstance(x, ast.Compare) and (names_in(x) & counts) and not (names_in(x) - counts - {"np"}) for e in clo for x in ast.walk(e))
+        facts = guard_facts(a, pm)
+        skip_only_off = any(at.strip() in ("skipna",) and pol is False for at, pol in facts)
+        res.inst(f"quantile_: '{norm(a)[:50]}': mask from a comparison of {sorted(counts)} alone: {from_count_compare}; only on the non-skipping path: {skip_only_off}",
+                 f"store|{a.lineno}")
+        if from_count_compare and not skip_only_off:
+            ok.append(a)
+    if not ok:
+        res.report("aggregate_flox.quantile_|no-valid-member-unmasked", f.where(gathers[0]), f.qualname,
+                   f"'{norm(gathers[0])[:50]}' gathers at positions computed from {sorted(counts)} (valid members per group); for a group whose members are all NaN the "
+                   "count is 0 and the positions point into the neighbouring groups, and no store masks such groups on the NaN-skipping path: nanmedian / "
+                   "nanquantile return a value made of the neighbours' members (the default engine for medians) where NumPy returns NaN")
+    return res
